@@ -245,6 +245,9 @@ def run(run, tier, seed):
     for init in INITIAL_BP:
         res = explore.bfs(make_expand(init), depth, seed=seed, bound={'initial_breakpoint': init, 'depth': depth})
         run.add_part('plugin_bfs:' + init, res)
+    d_un = 3 if tier == 'quick' else 4
+    res = explore.bfs(make_expand('wl_surface'), d_un, seed=seed, merge=False, bound={'initial_breakpoint': 'wl_surface', 'depth': d_un, 'merged': False})
+    run.add_part('plugin_bfs_unmerged', res)
     res = explore.prod(lambda: gen_ui(tier), eval_ui, seed=seed, bound={'command_list_length': 3 if tier == 'quick' else 4})
     run.add_part('terminal_ui', res)
     if tier == 'thorough':
